@@ -24,7 +24,7 @@ def part_split(ctx):
         cases = ctx.rng.sample(cases, min(len(cases), 140))
     cases += c11.random_cases(ctx)[:300 if ctx.tier == 'quick' else 5000]
     exp_py, got_py, args, res, spans = c11.evaluate(cases, 'py')
-    # JS strings are UTF-16: astral characters are outside the common ground of the two ports
+    # (astral characters included: the splitters only look at quotes, delimiters and spaces)
     exp_js, got_js, _a, _r, _s = c11.evaluate(cases, 'js')
     tag = [dict(c, part='split') for c in cases]
     ctx.compare(tag, exp_py, got_py, THEOREM, rel=c11.rel, describe=lambda c, e, g: 'split (py vs model): ' + c11.first_diff(c, e, g))
